@@ -2,11 +2,15 @@
 
 use crate::report::Tier;
 
+pub mod c06;
+pub mod c11;
 pub mod c17;
 
 /// Run the check for a property; returns the process exit code.
 pub fn run(prop: &str, tier: Tier, seed: u64) -> Option<i32> {
     Some(match prop {
+        "C06" => c06::run(tier, seed),
+        "C11" => c11::run(tier, seed),
         "C17" => c17::run(tier, seed),
         _ => return None,
     })
@@ -14,6 +18,8 @@ pub fn run(prop: &str, tier: Tier, seed: u64) -> Option<i32> {
 
 pub fn replay(prop: &str, witness: &serde_json::Value) -> Option<i32> {
     Some(match prop {
+        "C06" => c06::replay(witness),
+        "C11" => c11::replay(witness),
         "C17" => c17::replay(witness),
         _ => return None,
     })
